@@ -81,13 +81,21 @@ def gen_cases(tier, seed):
         pend = bytes([0x7F, inv.sid, 0x78])
         p = inv.positive
         finals = [p, p[:1], p[:2], p + b'\x00', bytes([0x7F, inv.sid, 0x22]), bytes([0x7F, inv.sid]), b'\x7e\x00' if inv.sid != 0x3E else b'\x51\x01', b'', None]
-        for npend in (1, 2):
-            for fin in finals:
-                cfgv = list(cl.DEFAULT_CFG)
-                for s, v in inv.cfg.items():
-                    cfgv[s] = v
-                reps = [(10 + 5 * k, pend) for k in range(npend)] + ([(100, fin)] if fin is not None else [])
-                yield cl.H(cfgv).call(inv.callid, inv.args, inv.blobs, reps).case(5000, inv.name + ' after pending')
+        # ... with and without an overall timeout (request_timeout None disables it), before and after a session change that supplied
+        # server timings (the windows after a pending frame then come from another source)
+        for rto, session_first in ((None, 0), (-1, 0), (-1, 1), (None, 1)):
+            for npend in (1, 2):
+                for fin in finals:
+                    cfgv = list(cl.DEFAULT_CFG)
+                    for s, v in inv.cfg.items():
+                        cfgv[s] = v
+                    if rto is not None:
+                        cfgv[cl.REQ_TO] = rto
+                    h = cl.H(cfgv)
+                    if session_first:
+                        h.call(2, [3], [], [(10, bytes([0x50, 3, 0x00, 0x32, 0x00, 0x64]))])
+                    reps = [(10 + 5 * k, pend) for k in range(npend)] + ([(100, fin)] if fin is not None else [])
+                    yield h.call(inv.callid, inv.args, inv.blobs, reps).case(5000, inv.name + ' after pending')
     for timeout in (1500000, 250000, 0):
         for session_first in (0, 1):
             for npend in (0, 1, 2):
